@@ -358,7 +358,7 @@ def main():
     prog = PROG = H.load_program(['validation'], decl_crates=('validation',))
     btc.load_dep_decls(prog)
     rep.cov['mir'] = dict(prog.info)
-    heights = [0, 1, 5, 11, 2014, 2015, 2016, 2017, 4031] if tier == 'quick' else [0, 1, 2, 5, 10, 11, 12, 2014, 2015, 2016, 2017, 2020, 4031, 4032, 6047, 2016 * 9 + 7]
+    heights = [0, 1, 5, 11, 2014, 2015, 2016, 2017, 4031] if tier == 'quick' else [0, 1, 2, 3, 5, 9, 10, 11, 12, 13, 2013, 2014, 2015, 2016, 2017, 2018, 2020, 2027, 2028, 4030, 4031, 4032, 4033, 6047, 6048, 2016 * 9 + 7, 2016 * 100 - 1, 2016 * 100, 2016 * 415 + 1]
     rep.cov['bounds'] = dict(tip_heights=heights, window='12 headers below the tip (all of them near genesis) + header at the last retarget height + genesis',
                              networks=NETS, fields='every time and bits of every header symbolic u32 (time < 2^32 - 8400), candidate proof-of-work value symbolic u256, current time symbolic',
                              outside='the proof-of-work hash itself; timestamps >= 2^32 - 8400; min-difficulty walk-back deeper than the window (assumed to end at its deepest header); Signet')
